@@ -719,6 +719,12 @@ func (u *connectStreamingUnmarshaler) Unmarshal(message any) *Error {
 	}
 	u.trailer = end.Trailer
 	u.endStreamErr = (*Error)(end.Error)
+	if u.endStreamErr != nil && u.endStreamErr.code == 0 {
+		// An error object without a usable code (missing, empty, or a numeric
+		// code that denotes OK) is still an error: never surface it with the
+		// zero code.
+		u.endStreamErr.code = CodeUnknown
+	}
 	return errSpecialEnvelope
 }
 
